@@ -159,17 +159,6 @@ Fixpoint expr_ind2 (e : expr) : P e :=
   end.
 End EXPR_IND.
 
-(* what the parser guarantees about every expression it builds: known function, right arity *)
-Fixpoint wf_expr (e : expr) : Prop :=
-  match e with
-  | ENum _ | EVar _ => True
-  | EBin _ l r => wf_expr l /\ wf_expr r
-  | EUn _ a => wf_expr a
-  | EFunc f args =>
-      func_arity f = Some (Nlen args) /\
-      (fix go (l : list expr) : Prop := match l with [] => True | x :: r => wf_expr x /\ go r end) args
-  end.
-
 Lemma wf_args_forall : forall args,
   (fix go (l : list expr) : Prop := match l with [] => True | x :: r => wf_expr x /\ go r end) args
   <-> Forall wf_expr args.
